@@ -400,6 +400,27 @@ def run(p):
         for dsc, call, r, snap in kept:
             p.check(observed(r) == snap, 'reuse:earlier-result-changed-by-a-later-conversion', 'object_reuse',
                     [dsc, [call[0], call[1]]], observed(r), snap, calldesc_text(dsc, call))
+    # 3c. rounding a coordinate object rounds its numbers and nothing else: a height or N value that is present stays present
+    #     (exactly 0 included), one that is absent stays absent — "heights travel with the point"
+    for _ in range(p.n(300, 10000)):
+        kind = rng.choice(['cart', 'geo', 'tm'])
+        o = gen_obj(rng, kind, rng.choice(['grs80', 'ans']), rng.choice(['utm', 'isg']))
+        nd = rng.choice([0, 1, 3, 4, 6, 9])
+        hs = {'cart': ['nval'], 'geo': ['ell_ht', 'orth_ht'], 'tm': ['ell_ht', 'orth_ht']}[kind]
+        if kind == 'geo' and not isinstance(o.lat, float):
+            continue      # rounding angle objects is C12's subject
+        inp = [desc(o), nd]
+        p.case('round_keeps_heights', inp)
+        try:
+            r = round(o, nd)
+        except Exception as e:  # noqa
+            p.violation('round:raises', 'round_keeps_heights', inp, f'{type(e).__name__}: {e}', 'a coordinate object', f'round({desc(o)}, {nd})')
+            continue
+        for hname in hs:
+            hv, rv = getattr(o, hname), getattr(r, hname)
+            exp = None if hv is None else round(hv, nd)
+            key = 'round:zero-height-dropped' if zero(hv) else 'round:height'
+            p.check(hx(rv) == hx(exp), key, 'round_keeps_heights', inp + [hname], rv, exp, f'round({desc(o)}, {nd}).{hname}')
     # 4. closed chains
     for _ in range(p.n(1500, 60000)):
         en, pn = rng.choice(['grs80', 'ans']), rng.choice(['utm', 'isg'])
